@@ -265,6 +265,8 @@ pub fn run(run: &mut Run) {
     run.direct(|| json!({"six_bit_map": true}), r);
     let (lanes, cases) = if run.thorough() { (16, 40000) } else { (16, 5000) };
     run_tapes(run, lanes, cases, 1000, &check);
+    // thorough only: coverage-guided search over generator tapes with the same oracle
+    crate::fuzzstage::fuzz_tapes(run, 1000, 120);
 }
 
 pub fn replay(case: &serde_json::Value) -> CheckResult {
